@@ -1,8 +1,9 @@
-SPECIFICATION FairSpec
+\* default exhaustive configuration (the check writes tier-dependent ones into runs/cfg)
+SPECIFICATION Spec
 CONSTANTS
   NSend = 2
   Caps = {1, 2}
-  DataKinds = {"send", "feed", "try"}
+  DataKinds = {"send", "try"}
   MaxOps = 2
   Enders = {"drop", "keep"}
   RCloseAt = {1}
@@ -10,6 +11,5 @@ CONSTANTS
   SPURIOUS = FALSE
   MaxSpur = 0
   EMIT = FALSE
-INVARIANTS C16Safety C16Wake ImplInv Emit
-PROPERTIES SenderProgress RecvProgress Settles
+INVARIANTS C16Safety C16Wake ImplInv
 CHECK_DEADLOCK FALSE
